@@ -39,7 +39,7 @@ def main(argv=None):
         prog = Program(root=args.repo)
         chk = Check(pid, args.tier, seed)
         try:
-            mod.run(prog, chk)
+            __import__('pvf.rules', fromlist=['run_property']).run_property(pid, prog, chk)
         except AnalysisError as e:
             if not chk.violations:
                 raise
